@@ -207,6 +207,51 @@ fn inits_upto(n: usize) -> Vec<Vec<u32>> {
 
 // ---------------------------------------------------------------------------------------------
 
+/// Subscribers that are turned into a stream late: every constructor x capacities 1,2,4 x 0..cap+3 updates
+/// (direct calls and one transaction) between subscribe() and the first poll, then more traffic.
+fn late_conversions(prop: &str, p: &Params, nt: &(dyn Fn(&Facts) -> bool + Sync)) -> Outcome {
+    let gen_name = "late-conversion-exh";
+    let caps = [1usize, 2, 4];
+    let mut roots = vec![];
+    for &cap in &caps {
+        for batched in [false, true] {
+            for values in [false, true] {
+                for before in 0..=cap + 3 {
+                    for shape in 0..3usize {
+                        roots.push((cap, batched, values, before, shape));
+                    }
+                }
+            }
+        }
+    }
+    let mut out = p.cases(gen_name, roots.len() as u64, |ri, out| {
+        let (cap, batched, values, before, shape) = roots[ri as usize];
+        let mut ops = vec![HOp::SubLazy { batched, values }, HOp::Sub { batched: !batched }];
+        for k in 0..before {
+            ops.push(HOp::V(match (shape, k % 3) {
+                (0, _) => VOp::PushBack(k as u32),
+                (1, 0) => VOp::PushFront(k as u32),
+                (1, 1) => VOp::Txn(vec![VOp::PushBack(7), VOp::PushBack(8)], TxEnd::Commit),
+                (1, _) => VOp::PopFront,
+                (_, 0) => VOp::PushBack(k as u32),
+                (_, 1) => VOp::Set(0, 9),
+                (_, _) => VOp::PopBack,
+            }));
+        }
+        ops.push(HOp::Poll { sub: 0, max: 1 });
+        ops.push(HOp::V(VOp::PushBack(5)));
+        ops.push(HOp::Poll { sub: 0, max: 0 });
+        ops.push(HOp::Poll { sub: 1, max: 0 });
+        ops.push(HOp::V(VOp::Txn(vec![VOp::PushFront(6), VOp::PopBack], TxEnd::Commit)));
+        let h = VecHistory { capacity: cap, init: vec![1, 2], ops };
+        judge_vec(prop, &h, json!({"gen": gen_name, "case": ri}), out, nt);
+    });
+    out.ev.exhaustive_scopes.push(format!(
+        "{gen_name}: into_stream / into_batched_stream / into_values_and_stream / into_values_and_batched_stream called only at the first poll x capacities {caps:?} x 0..capacity+3 updates of three shapes (pushes; front ops and a transaction; set/pop mix) between subscribe() and that poll"
+    ));
+    out
+}
+
 pub fn run_c05(p: &Params) -> Outcome {
     let nt = |f: &Facts| f.msgs >= 2 && f.ready >= 1 && f.pending >= 1;
     let depth = if p.thorough { 4 } else { 3 };
@@ -282,6 +327,7 @@ pub fn run_c05(p: &Params) -> Outcome {
     // long backlogs below the capacity: one batched poll collects dozens of messages
     let backlog = GenCfg { caps: &[64, 128, 256, 1024], min_ops: 60, max_ops: 400, poll_pct: 3, max_subs: 3, ..g };
     out.merge(random("C05", p, p.n(2_000, 40_000), &backlog, &nt, "c05-rand-backlog"));
+    out.merge(late_conversions("C05", p, &nt));
     out
 }
 
@@ -354,6 +400,7 @@ pub fn run_c06(p: &Params) -> Outcome {
     // big channels with long backlogs: hundreds of undelivered messages around capacities 32..256
     let backlog = GenCfg { caps: &[31, 32, 33, 63, 64, 65, 100, 128, 256], min_ops: 120, max_ops: 700, poll_pct: 2, max_subs: 3, ..g };
     out.merge(random("C06", p, p.n(1_500, 30_000), &backlog, &nt, "c06-rand-backlog"));
+    out.merge(late_conversions("C06", p, &nt));
     if out.violations.is_empty() && out.ev.get("resets_delivered") == 0 {
         out.inconclusive.push("no Reset was delivered in the whole run".into());
     }
